@@ -346,13 +346,15 @@ Proof.
   destruct H as [E|[]]. inversion E; subst. eauto.
 Qed.
 
-(** a step that is not a call of a plain waker's handler: the monitor's own fields do not move *)
-Lemma d_state_step : forall st st' m t i r ev,
+(** one instruction: the monitor may have seen the call of a plain waker's handler *)
+Lemma d_instr_step : forall st st' m m' t i r ev,
   CInv (core st) -> SlInv st -> DRel DNone st m -> tcont (thr st t) = i :: r -> ieff st st' t i r ev ->
   (forall u, u <> t -> tret (thr st' u) = tret (thr st u)) ->
-  (forall w d, i <> IYieldH (HPlain w) d) -> DRel DNone st' m.
+  m12_begun m' = m12_begun m -> m12_done m' = m12_done m -> m12_bad m' = false ->
+  (forall w, memZ w (m12_dead m') = true <-> memZ w (m12_dead m) = true \/ i = IYieldH (HPlain w) true) ->
+  DRel DNone st' m'.
 Proof.
-  intros st st' m t i r ev I S R Hc [F [new [Hc' [Hny [Hnp Hnd]]]] [Esl [Ewu [Enf _]]] Hpipe Htret _ _] Hto Hi.
+  intros st st' m m' t i r ev I S R Hc [F [new [Hc' [Hny [Hnp Hnd]]]] [Esl [Ewu [Enf _]]] Hpipe Htret _ _] Hto M1 M2 M4 M3.
   destruct F as [Hn [Hf Ho]].
   assert (Cur : forall u, tcur (thr st' u) = tcur (thr st u)) by (intro u; apply Hf).
   assert (Fin : forall u, tfinal (thr st' u) = tfinal (thr st u)) by (intro u; apply Hf).
@@ -364,16 +366,22 @@ Proof.
     apply in_app_or in H. destruct H as [H|H]; [exfalso; exact (Hnp x w H)|]. apply in_or_app. left. apply in_or_app. right. exact H. }
   assert (Claim : forall x h m0 bm, i = ILock m0 (LPush x bm h) -> slab_get (sl st) x = Some h).
   { intros x h m0 bm E. apply (sl_claim st S). right; right. exists t. rewrite (tpushes_cons_cont _ _ _ Hc), E. left. reflexivity. }
-  assert (Yk : forall w d, In (IYieldH (HPlain w) d) (tcont (thr st' main)) -> In (IYieldH (HPlain w) d) (tcont (thr st main))).
-  { intros w d H. destruct (Nat.eq_dec main t) as [E|E]; [|rewrite (Ho main E) in H; exact H].
-    rewrite E in *. rewrite Hc' in H. rewrite Hc. apply in_app_or in H. destruct H as [H|H]; [exfalso; apply (Hny _ H); eexists; eexists; reflexivity|right; exact H]. }
-  assert (Yk2 : forall w d, In (IYieldH (HPlain w) d) (tcont (thr st main)) -> In (IYieldH (HPlain w) d) (tcont (thr st' main))).
-  { intros w d H. destruct (Nat.eq_dec main t) as [E|E]; [|rewrite (Ho main E); exact H].
-    rewrite E in *. rewrite Hc in H. rewrite Hc'. destruct H as [H|H]; [exfalso; eapply Hi; eauto|apply in_or_app; right; exact H]. }
-  assert (Pg : forall w, prog st m w -> prog st' m w).
-  { intros w [A|[[x [A B]]|A]]; [left; exact A|right; left; exists x; split; [apply Hpipe; left; exact A|rewrite Esl; exact B]|right; right; apply Yk2; exact A]. }
+  assert (Yr : forall w d, In (IYieldH (HPlain w) d) (tcont (thr st' main)) ->
+               In (IYieldH (HPlain w) d) (tcont (thr st main)) /\ forall w0 d0, i <> IYieldH (HPlain w0) d0).
+  { intros w d H. destruct (Nat.eq_dec main t) as [E|E].
+    - rewrite E in *. rewrite Hc' in H. rewrite Hc. apply in_app_or in H.
+      destruct H as [H|H]; [exfalso; apply (Hny _ H); eexists; eexists; reflexivity|]. split; [right; exact H|].
+      intros w0 d0 Ei. apply (d_ypos _ st m R t i r _ Hc H). eexists; eexists; reflexivity.
+    - rewrite (Ho main E) in H. split; [exact H|]. intros w0 d0 Ei.
+      apply (d_ymain _ st m R t i (fun X => E (eq_sym X))); [rewrite Hc; left; reflexivity|subst i; eexists; eexists; reflexivity]. }
+  assert (Dm : forall w, memZ w (m12_dead m) = true -> memZ w (m12_dead m') = true) by (intros w H; apply M3; left; exact H).
+  assert (Pg : forall w, prog st m w -> prog st' m' w).
+  { intros w [A|[[x [A B]]|A]]; [left; apply Dm; exact A|right; left; exists x; split; [apply Hpipe; left; exact A|rewrite Esl; exact B]|].
+    destruct (Nat.eq_dec main t) as [E|E]; [|right; right; rewrite (Ho main E); exact A].
+    rewrite E in A. rewrite Hc in A. destruct A as [A|A]; [left; apply M3; right; exact A|].
+    right; right. rewrite E, Hc'. apply in_or_app. right. exact A. }
   constructor.
-  - apply (d_bad _ st m R).
+  - exact M4.
   - intros x y w. rewrite Esl. apply (d_uniq _ st m R).
   - intros x w. rewrite Esl, Ewu, Enf. apply (d_used _ st m R).
   - rewrite Enf. apply (d_nfill _ st m R).
@@ -383,16 +391,23 @@ Proof.
     + cbn in Hk. inversion Hk; subst. apply in_app_or in Hj. destruct Hj as [Hj|Hj]; [apply Hny; right; exact Hj|apply (d_ypos _ st m R t i r j Hc Hj)].
   - intros u j Hu Hj. destruct (Nat.eq_dec u t) as [->|Hn0]; [|rewrite (Ho u Hn0) in Hj; apply (d_ymain _ st m R u j Hu Hj)].
     rewrite Hc' in Hj. apply in_app_or in Hj. destruct Hj as [Hj|Hj]; [apply Hny; exact Hj|apply (d_ymain _ st m R t j Hu); rewrite Hc; right; exact Hj].
-  - intros w d H. rewrite Esl, Ewu. apply (d_y _ st m R w d). apply Yk. exact H.
-  - intros w H. rewrite Esl, Ewu. apply (d_dead _ st m R w H).
-  - intros u x w H. rewrite Ewu. destruct (Nat.eq_dec u t) as [->|Hu]; [apply (d_push _ st m R t x w); apply TpNew; exact H|].
+  - intros w d H. rewrite Esl, Ewu. unfold dbegun. rewrite M1. destruct (Yr w d H) as [H1 H2].
+    destruct (d_y _ st m R w d H1) as [D1 D2]. split; [|exact D2].
+    destruct (memZ w (m12_dead m')) eqn:Ed; [|reflexivity]. apply M3 in Ed. destruct Ed as [Ed|Ed]; [congruence|exfalso; exact (H2 _ _ Ed)].
+  - intros w H. rewrite Esl, Ewu. apply M3 in H. destruct H as [H|H]; [apply (d_dead _ st m R w H)|].
+    assert (Tm : t = main).
+    { destruct (Nat.eq_dec t main) as [E|E]; [exact E|exfalso].
+      apply (d_ymain _ st m R t i E); [rewrite Hc; left; reflexivity|subst i; eexists; eexists; reflexivity]. }
+    subst t. destruct (d_y _ st m R w true) as [D1 D2]; [rewrite Hc, H; left; reflexivity|].
+    destruct (D2 eq_refl) as [_ [D3 [D4 D5]]]. auto.
+  - intros u x w H. rewrite Ewu. unfold dbegun. rewrite M1. destruct (Nat.eq_dec u t) as [->|Hu]; [apply (d_push _ st m R t x w); apply TpNew; exact H|].
     rewrite (Tp u Hu) in H. apply (d_push _ st m R u x w H).
-  - intros x w Hin Hs. rewrite Esl in Hs. rewrite Ewu. apply Hpipe in Hin. destruct Hin as [Hin|[m0 [bm [h E]]]]; [apply (d_pipe _ st m R x w Hin Hs)|].
+  - intros x w Hin Hs. rewrite Esl in Hs. rewrite Ewu. unfold dbegun. rewrite M1. apply Hpipe in Hin. destruct Hin as [Hin|[m0 [bm [h E]]]]; [apply (d_pipe _ st m R x w Hin Hs)|].
     pose proof (Claim x h m0 bm E) as Cl. rewrite Cl in Hs. inversion Hs; subst h.
     apply (d_push _ st m R t x w). rewrite (tpushes_cons_cont _ _ _ Hc), E. left. reflexivity.
-  - intros w H. apply Pg. apply (d_done _ st m R w H).
+  - intros w H. apply Pg. rewrite M2 in H. apply (d_done _ st m R w H).
   - intros u w. rewrite Cur. intro Hu. destruct (d_cmd _ st m R u w Hu) as [[D _]|[D1 [D2 [D3 [D4 D5]]]]]; [discriminate D|]. right.
-    split; [discriminate|]. split; [exact D2|].
+    split; [discriminate|]. unfold dbegun in *. rewrite M1. split; [exact D2|].
     destruct (Nat.eq_dec u t) as [->|Hn0].
     + assert (Di : dropw_ok i) by (apply D4; rewrite Hc; left; reflexivity).
       split; [|split].
@@ -403,6 +418,37 @@ Proof.
         -- right. right; left. exists x. apply in_push_of in Hx. destruct Hx as [m0 [bm E]].
            split; [apply Hpipe; right; eauto|rewrite Esl; apply (Claim x _ m0 bm E)].
         -- left. exists x. rewrite Hc', pushes_app. apply in_or_app. right. exact Hx.
-    + rewrite (Ho u Hn0), (Hto u Hn0). split; [exact D3|]. split; [exact D4|]. destruct D5 as [D5|D5]; [left; exact D5|right; apply Pg; exact D5].
+    + rewrite (Ho u Hn0), (Hto u Hn0).
+      split; [exact D3|]. split; [exact D4|]. destruct D5 as [D5|D5]; [left; exact D5|right; apply Pg; exact D5].
   - intros u w H. discriminate H.
+Qed.
+
+Lemma exec_instr_D : forall st m t i r st' ev,
+  CInv (core st) -> SlInv st -> DRel DNone st m -> tcont (thr st t) = i :: r -> exec_instr st t i r = (st', ev) ->
+  DRel DNone st' (fold_left m12_step (evs t ev) m).
+Proof.
+  intros st m t i r st' ev I S R Hc H.
+  pose proof (exec_instr_eff _ _ _ _ _ _ I Hc H) as E.
+  assert (Hto : forall u, u <> t -> tret (thr st' u) = tret (thr st u)) by (intros u Hu; eapply tret_other; eauto).
+  assert (Dec : (exists w d, i = IYieldH (HPlain w) d) \/ (forall w d, i <> IYieldH (HPlain w) d)).
+  { destruct i; try (right; intros; discriminate). destruct h; try (right; intros; discriminate). left; eauto. }
+  destruct Dec as [[w [d Ei]]|Ni].
+  - subst i. pose proof H as H0. cbn [exec_instr] in H0. unfold ghost_handler in H0. injection H0 as _ He. rewrite <- He.
+    cbn [evs map fold_left]. eapply d_msame; [|apply m12_plain_step; cbn; auto].
+    assert (Tm : t = main).
+    { destruct (Nat.eq_dec t main) as [E0|E0]; [exact E0|exfalso].
+      apply (d_ymain _ st m R t (IYieldH (HPlain w) d) E0); [rewrite Hc; left; reflexivity|eexists; eexists; reflexivity]. }
+    destruct (d_y _ st m R w d) as [D1 D2]; [rewrite <- Tm, Hc; left; reflexivity|].
+    eapply d_instr_step; eauto; cbn.
+    + rewrite (d_bad _ st m R), D1. cbn. destruct d; [|reflexivity]. destruct (D2 eq_refl) as [D3 _]. cbn [dbegun] in D3. rewrite D3. reflexivity.
+    + intro w0. destruct d.
+      * cbn. destruct (Z.eqb_spec w w0) as [<-|Nw]; cbn; [split; auto|].
+        split; [auto|]. intros [A|A]; [exact A|inversion A; congruence].
+      * split; [auto|]. intros [A|A]; [exact A|discriminate A].
+  - eapply d_msame; [|apply m12_plain_fold].
+    + eapply d_instr_step; eauto; try reflexivity; [apply (d_bad _ st m R)|].
+      intro w. split; [auto|]. intros [A|A]; [exact A|exfalso; eapply Ni; eauto].
+    + intros e He. unfold c12_plain. destruct (e_noc _ _ _ _ _ _ E e He) as [N1 N2].
+      destruct e; auto; try (eapply N1; reflexivity); try (eapply N2; reflexivity).
+      destruct h; auto. apply (e_hev _ _ _ _ _ _ E) in He. eapply Ni; eauto.
 Qed.
